@@ -135,7 +135,53 @@ def corrupt(rng, text):
     return "\n".join(ls)
 
 
+def pp_storm(rng):
+    """a preprocessor-heavy text: define / redefine / undef object- and function-like macros over a
+    tiny name alphabet, conditionals that use them, and code lines that expand them"""
+    names = ["A", "B", "C", "X", "GE", "MAXV"]
+    args = ["a", "b", "n"]
+    bodies = ["1", "2", "0", "", "B", "A", "C + 1", "(a>=b)", "a+1", "a##b", "X", "\\d", "\"q\"", "'s'",
+              "(", "a,b", "A(1)", "GE(a,1)", "type(t)", "1 \\", "defined(A)", "!A", "__LINE__"]
+    conds = ["{n}", "{n}(3,2)", "defined({n})", "defined {n}", "!defined({n})", "{n} > 1", "{n} == {m}",
+             "!{n}", "{n} && {m}", "{n} || defined({m})", "({n}", "{n} ==", "{n}(1", "{n}()", "1", "0",
+             "{n}({m})", "{n} + {m}(2) > 3", "-{n}", "{n} {m}"]
+    ls = []
+    depth = 0
+    for _ in range(rng.randint(6, 30)):
+        r = rng.random()
+        n, m = rng.choice(names), rng.choice(names)
+        if r < 0.22:
+            ls.append(f"#define {n} {rng.choice(bodies)}")
+        elif r < 0.36:
+            k = rng.randint(0, 2)
+            ls.append(f"#define {n}({','.join(args[:k])}) {rng.choice(bodies)}")
+        elif r < 0.44:
+            ls.append(f"#undef {n}")
+        elif r < 0.58:
+            ls.append(rng.choice(["#if ", "#if ", "#elif "]) + rng.choice(conds).format(n=n, m=m))
+            depth += 1
+        elif r < 0.64:
+            ls.append(rng.choice([f"#ifdef {n}", f"#ifndef {n}"]))
+            depth += 1
+        elif r < 0.70:
+            ls.append("#else")
+        elif r < 0.78:
+            ls.append("#endif")
+            depth -= 1
+        elif r < 0.9:
+            ls.append(rng.choice([f"  integer :: v_{n.lower()} = {n}", f"  x = {n}(1, 2) + {m}", f"  call s({n}, {m}(3))",
+                                  f"module m_{n.lower()}", f"end module m_{n.lower()}", f"  real :: {n}", f"  y = {n}",
+                                  f"  print *, '{n}', {n}"]))
+        else:
+            ls.append(rng.choice(["", "  \\", "! c", f"#include \"{n}.h\"", "#define", "#if", "#undef"]))
+    for _ in range(max(0, depth) if rng.random() < 0.7 else 0):
+        ls.append("#endif")
+    return "\n".join(ls) + "\n"
+
+
 def pick_base(rng):
+    if rng.random() < 0.2:
+        return gen.rand_ident(rng, 3) + rng.choice([".F90", ".F90", ".F", ".fpp", ".F08"]), pp_storm(rng)
     if rng.random() < 0.7:
         rel, text = rng.choice(gen.corpus_sources())
         name = rel.replace("/", "_")
